@@ -7,17 +7,17 @@ by axiom; it is the specification the extracted emission schemas are compared wi
 """
 
 SPECS = {
-    ("cnfgen.families.cliquecoloring", "CliqueColoring"): [
+    ('cnfgen.families.cliquecoloring', 'CliqueColoring'): [
         # : force_complete_mapping(q)
         ((), (), 'force_complete_mapping', ('q',)),
         # : force_functional_mapping(q)
         ((), (), 'force_functional_mapping', ('q',)),
         # : force_injective_mapping(q)
         ((), (), 'force_injective_mapping', ('q',)),
-        # for (q0, q1) in e.indices() for (q2, q3) in combinations(q.domain(), 2): add_clause([e(q0, q1), -q(q2, q0), -q(q3, q1)])
-        ((('(q0, q1)', 'e.indices()'), ('(q2, q3)', 'combinations(q.domain(), 2)')), (), 'add_clause', ('[e(q0, q1), -q(q2, q0), -q(q3, q1)]',)),
-        # for (q0, q1) in e.indices() for (q2, q3) in combinations(q.domain(), 2): add_clause([e(q0, q1), -q(q2, q1), -q(q3, q0)])
-        ((('(q0, q1)', 'e.indices()'), ('(q2, q3)', 'combinations(q.domain(), 2)')), (), 'add_clause', ('[e(q0, q1), -q(q2, q1), -q(q3, q0)]',)),
+        # for (q0, q1) in combinations(q.domain(), 2) for (q2, q3) in e.indices(): add_clause([-q(q0, q2), -q(q1, q3), e(q2, q3)])
+        ((('(q0, q1)', 'combinations(q.domain(), 2)'), ('(q2, q3)', 'e.indices()')), (), 'add_clause', ('[-q(q0, q2), -q(q1, q3), e(q2, q3)]',)),
+        # for (q0, q1) in combinations(q.domain(), 2) for (q2, q3) in e.indices(): add_clause([-q(q0, q3), -q(q1, q2), e(q2, q3)])
+        ((('(q0, q1)', 'combinations(q.domain(), 2)'), ('(q2, q3)', 'e.indices()')), (), 'add_clause', ('[-q(q0, q3), -q(q1, q2), e(q2, q3)]',)),
         # : force_complete_mapping(r)
         ((), (), 'force_complete_mapping', ('r',)),
         # : force_functional_mapping(r)
@@ -25,7 +25,7 @@ SPECS = {
         # for (q0, q1) in e.indices() for q2 in r.range(): add_clause([-e(q0, q1), -r(q0, q2), -r(q1, q2)])
         ((('(q0, q1)', 'e.indices()'), ('q2', 'r.range()')), (), 'add_clause', ('[-e(q0, q1), -r(q0, q2), -r(q1, q2)]',)),
     ],
-    ("cnfgen.families.coloring", "GraphColoringFormula"): [
+    ('cnfgen.families.coloring', 'GraphColoringFormula'): [
         # : force_complete_mapping(x)
         ((), (), 'force_complete_mapping', ('x',)),
         #  if functional: force_functional_mapping(x)
@@ -33,47 +33,47 @@ SPECS = {
         # for (q0, q1) in G.edges() for q2 in range(1, colors + 1): add_clause([-x(q0, q2), -x(q1, q2)])
         ((('(q0, q1)', 'G.edges()'), ('q2', 'range(1, colors + 1)')), (), 'add_clause', ('[-x(q0, q2), -x(q1, q2)]',)),
     ],
-    ("cnfgen.families.coloring", "EvenColoringFormula"): [
+    ('cnfgen.families.coloring', 'EvenColoringFormula'): [
         # for q0 in G.vertices(): cardinality_eq([e(c0, c1) for c0, c1 in e.indices(q0, None)], len([e(c0, c1) for c0, c1 in e.indices(q0, None)]) // 2)
         ((('q0', 'G.vertices()'),), (), 'cardinality_eq', ('[e(c0, c1) for c0, c1 in e.indices(q0, None)]', 'len([e(c0, c1) for c0, c1 in e.indices(q0, None)]) // 2')),
     ],
-    ("cnfgen.families.counting", "CountingPrinciple"): [
+    ('cnfgen.families.counting', 'CountingPrinciple'): [
         # for q0 in stars: cardinality_eq(q0, 1)
         ((('q0', 'stars'),), (), 'cardinality_eq', ('q0', '1')),
     ],
-    ("cnfgen.families.counting", "PerfectMatchingPrinciple"): [
+    ('cnfgen.families.counting', 'PerfectMatchingPrinciple'): [
         # for q0 in G.vertices(): cardinality_eq(e(q0, None), 1)
         ((('q0', 'G.vertices()'),), (), 'cardinality_eq', ('e(q0, None)', '1')),
     ],
-    ("cnfgen.families.cpls", "CPLSFormula"): [
+    ('cnfgen.families.cpls', 'CPLSFormula'): [
         # for q0 in G(1, 1, None): add_clause([-q0])
         ((('q0', 'G(1, 1, None)'),), (), 'add_clause', ('[-q0]',)),
-        # for (q0, q1, q2, q3) in product(range(1, a), range(1, b + 1), range(1, b + 1), range(1, c + 1)): add_clause(f[q0].forbid(q1, q2 - 1) + [-G(q0 + 1, q2, q3), G(q0, q1, q3)])
-        ((('(q0, q1, q2, q3)', 'product(range(1, a), range(1, b + 1), range(1, b + 1), range(1, c + 1))'),), (), 'add_clause', ('f[q0].forbid(q1, q2 - 1) + [-G(q0 + 1, q2, q3), G(q0, q1, q3)]',)),
-        # for q0 in range(1, b + 1) for q1 in range(1, c + 1): add_clause(u.forbid(q0, q1 - 1) + [G(a, q0, q1)])
-        ((('q0', 'range(1, b + 1)'), ('q1', 'range(1, c + 1)')), (), 'add_clause', ('u.forbid(q0, q1 - 1) + [G(a, q0, q1)]',)),
+        # for (q0, q1, q2, q3) in product(range(1, a), range(1, b + 1), range(1, b + 1), range(1, c + 1)): add_clause([-G(q0 + 1, q2, q3), G(q0, q1, q3)] + f[q0].forbid(q1, q2 - 1))
+        ((('(q0, q1, q2, q3)', 'product(range(1, a), range(1, b + 1), range(1, b + 1), range(1, c + 1))'),), (), 'add_clause', ('[-G(q0 + 1, q2, q3), G(q0, q1, q3)] + f[q0].forbid(q1, q2 - 1)',)),
+        # for q0 in range(1, b + 1) for q1 in range(1, c + 1): add_clause([G(a, q0, q1)] + u.forbid(q0, q1 - 1))
+        ((('q0', 'range(1, b + 1)'), ('q1', 'range(1, c + 1)')), (), 'add_clause', ('[G(a, q0, q1)] + u.forbid(q0, q1 - 1)',)),
     ],
-    ("cnfgen.families.dominatingset", "DominatingSet"): [
-        # for (q0, q1) in combinations(G.vertices(), 2) for q2 in range(1, d + 1) if not (G.order() == 0) and alternative: add_clause([-x(q0), -x(q1), -M(q0, q2), -M(q1, q2)])
-        ((('(q0, q1)', 'combinations(G.vertices(), 2)'), ('q2', 'range(1, d + 1)')), ('alternative', 'not (G.order() == 0)'), 'add_clause', ('[-x(q0), -x(q1), -M(q0, q2), -M(q1, q2)]',)),
-        #  if not (G.order() == 0) and not (alternative): force_injective_mapping(M)
-        ((), ('not (G.order() == 0)', 'not (alternative)'), 'force_injective_mapping', ('M',)),
-        # for q0 in G.vertices() for (q1, q2) in combinations(range(1, d + 1), 2) if not (G.order() == 0) and alternative: add_clause([-x(q0), -M(q0, q1), -M(q0, q2)])
-        ((('q0', 'G.vertices()'), ('(q1, q2)', 'combinations(range(1, d + 1), 2)')), ('alternative', 'not (G.order() == 0)'), 'add_clause', ('[-x(q0), -M(q0, q1), -M(q0, q2)]',)),
-        #  if not (G.order() == 0) and not (alternative): force_nondecreasing_mapping(M)
-        ((), ('not (G.order() == 0)', 'not (alternative)'), 'force_nondecreasing_mapping', ('M',)),
-        # for q0 in range(1, d + 1) for q1 in G.vertices() if not (G.order() == 0) and not alternative: add_clause([-M(q1, q0), x(q1)])
-        ((('q0', 'range(1, d + 1)'), ('q1', 'G.vertices()')), ('not (G.order() == 0)', 'not alternative'), 'add_clause', ('[-M(q1, q0), x(q1)]',)),
-        # for q0 in G.vertices() if not (G.order() == 0): add_clause([-x(q0)] + M(q0, None))
-        ((('q0', 'G.vertices()'),), ('not (G.order() == 0)',), 'add_clause', ('[-x(q0)] + M(q0, None)',)),
-        # for q0 in unique_neighborhoods(G) if not (G.order() == 0): add_clause([x(c0) for c0 in q0])
-        ((('q0', 'unique_neighborhoods(G)'),), ('not (G.order() == 0)',), 'add_clause', ('[x(c0) for c0 in q0]',)),
+    ('cnfgen.families.dominatingset', 'DominatingSet'): [
+        # for (q0, q1) in combinations(G.vertices(), 2) for q2 in range(1, d + 1) if 0 != G.order() and alternative: add_clause([-M(q0, q2), -M(q1, q2), -x(q0), -x(q1)])
+        ((('(q0, q1)', 'combinations(G.vertices(), 2)'), ('q2', 'range(1, d + 1)')), ('0 != G.order()', 'alternative'), 'add_clause', ('[-M(q0, q2), -M(q1, q2), -x(q0), -x(q1)]',)),
+        #  if 0 != G.order() and not alternative: force_injective_mapping(M)
+        ((), ('0 != G.order()', 'not alternative'), 'force_injective_mapping', ('M',)),
+        # for q0 in G.vertices() for (q1, q2) in combinations(range(1, d + 1), 2) if 0 != G.order() and alternative: add_clause([-M(q0, q1), -M(q0, q2), -x(q0)])
+        ((('q0', 'G.vertices()'), ('(q1, q2)', 'combinations(range(1, d + 1), 2)')), ('0 != G.order()', 'alternative'), 'add_clause', ('[-M(q0, q1), -M(q0, q2), -x(q0)]',)),
+        #  if 0 != G.order() and not alternative: force_nondecreasing_mapping(M)
+        ((), ('0 != G.order()', 'not alternative'), 'force_nondecreasing_mapping', ('M',)),
+        # for q0 in G.vertices() for q1 in range(1, d + 1) if 0 != G.order() and not alternative: add_clause([-M(q0, q1), x(q0)])
+        ((('q0', 'G.vertices()'), ('q1', 'range(1, d + 1)')), ('0 != G.order()', 'not alternative'), 'add_clause', ('[-M(q0, q1), x(q0)]',)),
+        # for q0 in G.vertices() if 0 != G.order(): add_clause([-x(q0)] + M(q0, None))
+        ((('q0', 'G.vertices()'),), ('0 != G.order()',), 'add_clause', ('[-x(q0)] + M(q0, None)',)),
+        # for q0 in unique_neighborhoods(G) if 0 != G.order(): add_clause([x(c0) for c0 in q0])
+        ((('q0', 'unique_neighborhoods(G)'),), ('0 != G.order()',), 'add_clause', ('[x(c0) for c0 in q0]',)),
     ],
-    ("cnfgen.families.dominatingset", "Tiling"): [
+    ('cnfgen.families.dominatingset', 'Tiling'): [
         # for q0 in unique_neighborhoods(G): cardinality_eq([x(c0) for c0 in q0], 1)
         ((('q0', 'unique_neighborhoods(G)'),), (), 'cardinality_eq', ('[x(c0) for c0 in q0]', '1')),
     ],
-    ("cnfgen.families.graphisomorphism", "GraphIsomorphism"): [
+    ('cnfgen.families.graphisomorphism', 'GraphIsomorphism'): [
         # : force_complete_mapping(x)
         ((), (), 'force_complete_mapping', ('x',)),
         # : force_surjective_mapping(x)
@@ -89,43 +89,43 @@ SPECS = {
         #  if nontrivial: add_clause([-x(c0, c0) for c0 in x.domain() if c0 in x.range()])
         ((), ('nontrivial',), 'add_clause', ('[-x(c0, c0) for c0 in x.domain() if c0 in x.range()]',)),
     ],
-    ("cnfgen.families.graphisomorphism", "GraphAutomorphism"): [
+    ('cnfgen.families.graphisomorphism', 'GraphAutomorphism'): [
         # : add_clause([-F._mapping(c0, c0) for c0 in F._mapping.domain()])
         ((), (), 'add_clause', ('[-F._mapping(c0, c0) for c0 in F._mapping.domain()]',)),
     ],
-    ("cnfgen.families.ordering", "OrderingPrinciple"): [
+    ('cnfgen.families.ordering', 'OrderingPrinciple'): [
     ],
-    ("cnfgen.families.ordering", "GraphOrderingPrinciple"): [
-        # for q0 in graph.vertices() if not (q0 == graph.order() and plant): add_clause({if smart: for q1 in graph.neighbors(q0): if q1 < q0: append(x(q1, q0)) else: append(-x(q0, q1)) else: [x(c0, q0) for c0 i
-        ((('q0', 'graph.vertices()'),), ('not (q0 == graph.order() and plant)',), 'add_clause', ('{if smart: for q1 in graph.neighbors(q0): if q1 < q0: append(x(q1, q0)) else: append(-x(q0, q1)) else: [x(c0, q0) for c0 in graph.neighbors(q0)]}',)),
-        # for (q0, q1, q2) in combinations(graph.vertices(), 3) if smart: add_clause([x(q0, q1), x(q1, q2), -x(q0, q2)])
-        ((('(q0, q1, q2)', 'combinations(graph.vertices(), 3)'),), ('smart',), 'add_clause', ('[x(q0, q1), x(q1, q2), -x(q0, q2)]',)),
+    ('cnfgen.families.ordering', 'GraphOrderingPrinciple'): [
+        # for q0 in graph.vertices() if (graph.order() != q0 or not plant): add_clause({if smart: for q1 in graph.neighbors(q0): if q1 < q0: append(x(q1, q0)) else: append(-x(q0, q1)) else: [x(c0, q0) for c0 in graph.neighbors(q0)]})
+        ((('q0', 'graph.vertices()'),), ('(graph.order() != q0 or not plant)',), 'add_clause', ('{if smart: for q1 in graph.neighbors(q0): if q1 < q0: append(x(q1, q0)) else: append(-x(q0, q1)) else: [x(c0, q0) for c0 in graph.neighbors(q0)]}',)),
+        # for (q0, q1, q2) in combinations(graph.vertices(), 3) if smart: add_clause([-x(q0, q2), x(q0, q1), x(q1, q2)])
+        ((('(q0, q1, q2)', 'combinations(graph.vertices(), 3)'),), ('smart',), 'add_clause', ('[-x(q0, q2), x(q0, q1), x(q1, q2)]',)),
         # for (q0, q1, q2) in combinations(graph.vertices(), 3) if smart: add_clause([-x(q0, q1), -x(q1, q2), x(q0, q2)])
         ((('(q0, q1, q2)', 'combinations(graph.vertices(), 3)'),), ('smart',), 'add_clause', ('[-x(q0, q1), -x(q1, q2), x(q0, q2)]',)),
-        # for (q0, q1, q2) in permutations(graph.vertices(), 3) if not (smart) and not (knuth == 2 and (q1 < q0 or q1 < q2)) and not (knuth == 3 and (q2 < q0 or q2 < q1)): add_clause([-x(q0, q1), -x(q1, q2), x(
-        ((('(q0, q1, q2)', 'permutations(graph.vertices(), 3)'),), ('not (knuth == 2 and (q1 < q0 or q1 < q2))', 'not (knuth == 3 and (q2 < q0 or q2 < q1))', 'not (smart)'), 'add_clause', ('[-x(q0, q1), -x(q1, q2), x(q0, q2)]',)),
-        # for (q0, q1) in combinations(graph.vertices(), 2) if not (smart): add_clause([-x(q0, q1), -x(q1, q0)])
-        ((('(q0, q1)', 'combinations(graph.vertices(), 2)'),), ('not (smart)',), 'add_clause', ('[-x(q0, q1), -x(q1, q0)]',)),
-        # for (q0, q1) in combinations(graph.vertices(), 2) if not (smart) and total: add_clause([x(q0, q1), x(q1, q0)])
-        ((('(q0, q1)', 'combinations(graph.vertices(), 2)'),), ('not (smart)', 'total'), 'add_clause', ('[x(q0, q1), x(q1, q0)]',)),
+        # for (q0, q1, q2) in permutations(graph.vertices(), 3) if ((q0 <= q1 and q2 <= q1) or 2 != knuth) and ((q0 <= q2 and q1 <= q2) or 3 != knuth) and not smart: add_clause([-x(q0, q1), -x(q1, q2), x(q0, q2)])
+        ((('(q0, q1, q2)', 'permutations(graph.vertices(), 3)'),), ('((q0 <= q1 and q2 <= q1) or 2 != knuth)', '((q0 <= q2 and q1 <= q2) or 3 != knuth)', 'not smart'), 'add_clause', ('[-x(q0, q1), -x(q1, q2), x(q0, q2)]',)),
+        # for (q0, q1) in combinations(graph.vertices(), 2) if not smart: add_clause([-x(q0, q1), -x(q1, q0)])
+        ((('(q0, q1)', 'combinations(graph.vertices(), 2)'),), ('not smart',), 'add_clause', ('[-x(q0, q1), -x(q1, q0)]',)),
+        # for (q0, q1) in combinations(graph.vertices(), 2) if not smart and total: add_clause([x(q0, q1), x(q1, q0)])
+        ((('(q0, q1)', 'combinations(graph.vertices(), 2)'),), ('not smart', 'total'), 'add_clause', ('[x(q0, q1), x(q1, q0)]',)),
     ],
-    ("cnfgen.families.pebbling", "PebblingFormula"): [
-        # for q0 in digraph.vertices(): add_clause([-x(c0) for c0 in digraph.predecessors(q0)] + [x(q0)])
-        ((('q0', 'digraph.vertices()'),), (), 'add_clause', ('[-x(c0) for c0 in digraph.predecessors(q0)] + [x(q0)]',)),
-        # for q0 in digraph.vertices() if digraph.out_degree(q0) == 0: add_clause([-x(q0)])
-        ((('q0', 'digraph.vertices()'),), ('digraph.out_degree(q0) == 0',), 'add_clause', ('[-x(q0)]',)),
+    ('cnfgen.families.pebbling', 'PebblingFormula'): [
+        # for q0 in digraph.vertices(): add_clause([x(q0)] + [-x(c0) for c0 in digraph.predecessors(q0)])
+        ((('q0', 'digraph.vertices()'),), (), 'add_clause', ('[x(q0)] + [-x(c0) for c0 in digraph.predecessors(q0)]',)),
+        # for q0 in digraph.vertices() if 0 == digraph.out_degree(q0): add_clause([-x(q0)])
+        ((('q0', 'digraph.vertices()'),), ('0 == digraph.out_degree(q0)',), 'add_clause', ('[-x(q0)]',)),
     ],
-    ("cnfgen.families.pebbling", "StoneFormula"): [
+    ('cnfgen.families.pebbling', 'StoneFormula'): [
     ],
-    ("cnfgen.families.pebbling", "SparseStoneFormula"): [
+    ('cnfgen.families.pebbling', 'SparseStoneFormula'): [
         # : force_complete_mapping(P)
         ((), (), 'force_complete_mapping', ('P',)),
-        # for q0 in D.vertices() for q1 in B.right_neighbors(q0) for q2 in product(*([c1 for c1 in B.right_neighbors(c0) if c1 != q1] for c0 in D.predecessors(q0))): add_clause([-P(c0, c1) for c0, c1 in zip(D.p
-        ((('q0', 'D.vertices()'), ('q1', 'B.right_neighbors(q0)'), ('q2', 'product(*([c1 for c1 in B.right_neighbors(c0) if c1 != q1] for c0 in D.predecessors(q0)))')), (), 'add_clause', ('[-P(c0, c1) for c0, c1 in zip(D.predecessors(q0), q2)] + [-P(q0, q1)] + [-R(c2) for c2 in _uniqify_list(q2)] + [R(q1)]',)),
-        # for q0 in D.vertices() for q1 in B.right_neighbors(q0) if D.out_degree(q0) == 0: add_clause([-P(q0, q1), -R(q1)])
-        ((('q0', 'D.vertices()'), ('q1', 'B.right_neighbors(q0)')), ('D.out_degree(q0) == 0',), 'add_clause', ('[-P(q0, q1), -R(q1)]',)),
+        # for q0 in D.vertices() for q1 in B.right_neighbors(q0) for q2 in product(*([c1 for c1 in B.right_neighbors(c0) if c1 != q1] for c0 in D.predecessors(q0))): add_clause([-P(q0, q1), R(q1)] + [-P(c0, c1) for c0, c1 in zip(D.predecessors(q0), q2)] + [-R(c0) for c0 in _uniqify_list(q2)])
+        ((('q0', 'D.vertices()'), ('q1', 'B.right_neighbors(q0)'), ('q2', 'product(*([c1 for c1 in B.right_neighbors(c0) if c1 != q1] for c0 in D.predecessors(q0)))')), (), 'add_clause', ('[-P(q0, q1), R(q1)] + [-P(c0, c1) for c0, c1 in zip(D.predecessors(q0), q2)] + [-R(c0) for c0 in _uniqify_list(q2)]',)),
+        # for q0 in D.vertices() for q1 in B.right_neighbors(q0) if 0 == D.out_degree(q0): add_clause([-P(q0, q1), -R(q1)])
+        ((('q0', 'D.vertices()'), ('q1', 'B.right_neighbors(q0)')), ('0 == D.out_degree(q0)',), 'add_clause', ('[-P(q0, q1), -R(q1)]',)),
     ],
-    ("cnfgen.families.pigeonhole", "PigeonholePrinciple"): [
+    ('cnfgen.families.pigeonhole', 'PigeonholePrinciple'): [
         # : force_complete_mapping(p)
         ((), (), 'force_complete_mapping', ('p',)),
         #  if onto: force_surjective_mapping(p)
@@ -135,7 +135,7 @@ SPECS = {
         #  if functional: force_functional_mapping(p)
         ((), ('functional',), 'force_functional_mapping', ('p',)),
     ],
-    ("cnfgen.families.pigeonhole", "GraphPigeonholePrinciple"): [
+    ('cnfgen.families.pigeonhole', 'GraphPigeonholePrinciple'): [
         # : force_complete_mapping(p)
         ((), (), 'force_complete_mapping', ('p',)),
         #  if onto: force_surjective_mapping(p)
@@ -145,71 +145,71 @@ SPECS = {
         #  if functional: force_functional_mapping(p)
         ((), ('functional',), 'force_functional_mapping', ('p',)),
     ],
-    ("cnfgen.families.pigeonhole", "BinaryPigeonholePrinciple"): [
+    ('cnfgen.families.pigeonhole', 'BinaryPigeonholePrinciple'): [
         # : force_complete_mapping(p)
         ((), (), 'force_complete_mapping', ('p',)),
         # : force_injective_mapping(p)
         ((), (), 'force_injective_mapping', ('p',)),
     ],
-    ("cnfgen.families.pigeonhole", "RelativizedPigeonholePrinciple"): [
+    ('cnfgen.families.pigeonhole', 'RelativizedPigeonholePrinciple'): [
         # for q0 in p.domain(): add_clause(p(q0, None))
         ((('q0', 'p.domain()'),), (), 'add_clause', ('p(q0, None)',)),
         # for q0 in p.range(): cardinality_leq(p(None, q0), 1)
         ((('q0', 'p.range()'),), (), 'cardinality_leq', ('p(None, q0)', '1')),
-        # for q0 in p.range() for q1 in p.domain(): add_clause([-p(q1, q0), r(q0)])
-        ((('q0', 'p.range()'), ('q1', 'p.domain()')), (), 'add_clause', ('[-p(q1, q0), r(q0)]',)),
+        # for q0 in p.domain() for q1 in p.range(): add_clause([-p(q0, q1), r(q1)])
+        ((('q0', 'p.domain()'), ('q1', 'p.range()')), (), 'add_clause', ('[-p(q0, q1), r(q1)]',)),
         # for q0 in q.domain(): add_clause([-r(q0)] + q(q0, None))
         ((('q0', 'q.domain()'),), (), 'add_clause', ('[-r(q0)] + q(q0, None)',)),
-        # for q0 in q.range() for (q1, q2) in combinations(q.domain(), 2): add_clause([-r(q1), -r(q2), -q(q1, q0), -q(q2, q0)])
-        ((('q0', 'q.range()'), ('(q1, q2)', 'combinations(q.domain(), 2)')), (), 'add_clause', ('[-r(q1), -r(q2), -q(q1, q0), -q(q2, q0)]',)),
+        # for (q0, q1) in combinations(q.domain(), 2) for q2 in q.range(): add_clause([-q(q0, q2), -q(q1, q2), -r(q0), -r(q1)])
+        ((('(q0, q1)', 'combinations(q.domain(), 2)'), ('q2', 'q.range()')), (), 'add_clause', ('[-q(q0, q2), -q(q1, q2), -r(q0), -r(q1)]',)),
     ],
-    ("cnfgen.families.pitfall", "PitfallFormula"): [
-        # for q0 in range(1, k + 1) for q1 in TseitinFormula(graph, [True]): add_clause([shift_edgelit(q0, c0) for c0 in q1] + z(q0, None))
-        ((('q0', 'range(1, k + 1)'), ('q1', 'TseitinFormula(graph, [True])')), (), 'add_clause', ('[shift_edgelit(q0, c0) for c0 in q1] + z(q0, None)',)),
-        # for q0 in range(1, k + 1) for (q1, q2) in combinations(y(q0, None), 2) for q3 in p(q0, None): add_clause([q1, q2, -q3])
-        ((('q0', 'range(1, k + 1)'), ('(q1, q2)', 'combinations(y(q0, None), 2)'), ('q3', 'p(q0, None)')), (), 'add_clause', ('[q1, q2, -q3]',)),
-        # for q0 in range(1, k + 1) for q1 in y(q0, None) for q2 in z(q0, None): add_clause([-a(q0, 1), a(q0, 3), -q2])
-        ((('q0', 'range(1, k + 1)'), ('q1', 'y(q0, None)'), ('q2', 'z(q0, None)')), (), 'add_clause', ('[-a(q0, 1), a(q0, 3), -q2]',)),
+    ('cnfgen.families.pitfall', 'PitfallFormula'): [
+        # for q0 in TseitinFormula(graph, [True]) for q1 in range(1, k + 1): add_clause([shift_edgelit(q1, c0) for c0 in q0] + z(q1, None))
+        ((('q0', 'TseitinFormula(graph, [True])'), ('q1', 'range(1, k + 1)')), (), 'add_clause', ('[shift_edgelit(q1, c0) for c0 in q0] + z(q1, None)',)),
+        # for q0 in range(1, k + 1) for (q1, q2) in combinations(y(q0, None), 2) for q3 in p(q0, None): add_clause([-q3, q1, q2])
+        ((('q0', 'range(1, k + 1)'), ('(q1, q2)', 'combinations(y(q0, None), 2)'), ('q3', 'p(q0, None)')), (), 'add_clause', ('[-q3, q1, q2]',)),
+        # for q0 in range(1, k + 1) for q1 in y(q0, None) for q2 in z(q0, None): add_clause([-a(q0, 1), -q2, a(q0, 3)])
+        ((('q0', 'range(1, k + 1)'), ('q1', 'y(q0, None)'), ('q2', 'z(q0, None)')), (), 'add_clause', ('[-a(q0, 1), -q2, a(q0, 3)]',)),
         # for q0 in range(1, k + 1) for q1 in y(q0, None) for q2 in z(q0, None): add_clause([-a(q0, 2), -a(q0, 3), -q2])
         ((('q0', 'range(1, k + 1)'), ('q1', 'y(q0, None)'), ('q2', 'z(q0, None)')), (), 'add_clause', ('[-a(q0, 2), -a(q0, 3), -q2]',)),
-        # for q0 in range(1, k + 1) for q1 in y(q0, None) for q2 in z(q0, None): add_clause([a(q0, 1), -q2, -q1])
-        ((('q0', 'range(1, k + 1)'), ('q1', 'y(q0, None)'), ('q2', 'z(q0, None)')), (), 'add_clause', ('[a(q0, 1), -q2, -q1]',)),
-        # for q0 in range(1, k + 1) for q1 in y(q0, None) for q2 in z(q0, None): add_clause([a(q0, 2), -q2, -q1])
-        ((('q0', 'range(1, k + 1)'), ('q1', 'y(q0, None)'), ('q2', 'z(q0, None)')), (), 'add_clause', ('[a(q0, 2), -q2, -q1]',)),
+        # for q0 in range(1, k + 1) for q1 in y(q0, None) for q2 in z(q0, None): add_clause([-q1, -q2, a(q0, 1)])
+        ((('q0', 'range(1, k + 1)'), ('q1', 'y(q0, None)'), ('q2', 'z(q0, None)')), (), 'add_clause', ('[-q1, -q2, a(q0, 1)]',)),
+        # for q0 in range(1, k + 1) for q1 in y(q0, None) for q2 in z(q0, None): add_clause([-q1, -q2, a(q0, 2)])
+        ((('q0', 'range(1, k + 1)'), ('q1', 'y(q0, None)'), ('q2', 'z(q0, None)')), (), 'add_clause', ('[-q1, -q2, a(q0, 2)]',)),
         # for q0 in range(1, ny, 2): add_clause({for q1 in range(1, k + 1): extend([-y(q1, q0), -y(q1, q0 + 1)])})
         ((('q0', 'range(1, ny, 2)'),), (), 'add_clause', ('{for q1 in range(1, k + 1): extend([-y(q1, q0), -y(q1, q0 + 1)])}',)),
     ],
-    ("cnfgen.families.ramsey", "PythagoreanTriples"): [
-        # for (q0, q1) in combinations(range(1, N + 1), 2) if int(sqrt(q0 ** 2 + q1 ** 2)) <= N and int(sqrt(q0 ** 2 + q1 ** 2)) ** 2 == q0 ** 2 + q1 ** 2: add_clause([+v(q0), +v(q1), +v(int(sqrt(q0 ** 2 + q1 *
-        ((('(q0, q1)', 'combinations(range(1, N + 1), 2)'),), ('int(sqrt(q0 ** 2 + q1 ** 2)) <= N and int(sqrt(q0 ** 2 + q1 ** 2)) ** 2 == q0 ** 2 + q1 ** 2',), 'add_clause', ('[+v(q0), +v(q1), +v(int(sqrt(q0 ** 2 + q1 ** 2)))]',)),
-        # for (q0, q1) in combinations(range(1, N + 1), 2) if int(sqrt(q0 ** 2 + q1 ** 2)) <= N and int(sqrt(q0 ** 2 + q1 ** 2)) ** 2 == q0 ** 2 + q1 ** 2: add_clause([-v(q0), -v(q1), -v(int(sqrt(q0 ** 2 + q1 *
-        ((('(q0, q1)', 'combinations(range(1, N + 1), 2)'),), ('int(sqrt(q0 ** 2 + q1 ** 2)) <= N and int(sqrt(q0 ** 2 + q1 ** 2)) ** 2 == q0 ** 2 + q1 ** 2',), 'add_clause', ('[-v(q0), -v(q1), -v(int(sqrt(q0 ** 2 + q1 ** 2)))]',)),
+    ('cnfgen.families.ramsey', 'PythagoreanTriples'): [
+        # for (q0, q1) in combinations(range(1, N + 1), 2) if int(sqrt(q0 ** 2 + q1 ** 2)) ** 2 == q0 ** 2 + q1 ** 2 and int(sqrt(q0 ** 2 + q1 ** 2)) <= N: add_clause([+v(int(sqrt(q0 ** 2 + q1 ** 2))), +v(q0), +v(q1)])
+        ((('(q0, q1)', 'combinations(range(1, N + 1), 2)'),), ('int(sqrt(q0 ** 2 + q1 ** 2)) ** 2 == q0 ** 2 + q1 ** 2', 'int(sqrt(q0 ** 2 + q1 ** 2)) <= N'), 'add_clause', ('[+v(int(sqrt(q0 ** 2 + q1 ** 2))), +v(q0), +v(q1)]',)),
+        # for (q0, q1) in combinations(range(1, N + 1), 2) if int(sqrt(q0 ** 2 + q1 ** 2)) ** 2 == q0 ** 2 + q1 ** 2 and int(sqrt(q0 ** 2 + q1 ** 2)) <= N: add_clause([-v(int(sqrt(q0 ** 2 + q1 ** 2))), -v(q0), -v(q1)])
+        ((('(q0, q1)', 'combinations(range(1, N + 1), 2)'),), ('int(sqrt(q0 ** 2 + q1 ** 2)) ** 2 == q0 ** 2 + q1 ** 2', 'int(sqrt(q0 ** 2 + q1 ** 2)) <= N'), 'add_clause', ('[-v(int(sqrt(q0 ** 2 + q1 ** 2))), -v(q0), -v(q1)]',)),
     ],
-    ("cnfgen.families.ramsey", "RamseyNumber"): [
+    ('cnfgen.families.ramsey', 'RamseyNumber'): [
         # for q0 in combinations(range(1, N + 1), s): add_clause([e(c0, c1) for c0, c1 in combinations(q0, 2)])
         ((('q0', 'combinations(range(1, N + 1), s)'),), (), 'add_clause', ('[e(c0, c1) for c0, c1 in combinations(q0, 2)]',)),
         # for q0 in combinations(range(1, N + 1), k): add_clause([-e(c0, c1) for c0, c1 in combinations(q0, 2)])
         ((('q0', 'combinations(range(1, N + 1), k)'),), (), 'add_clause', ('[-e(c0, c1) for c0, c1 in combinations(q0, 2)]',)),
     ],
-    ("cnfgen.families.ramsey", "VanDerWaerden"): [
-        # for q0 in _vdw_ap_generator(N, ([k1, k2] + ks)[0]) if len([k1, k2] + ks) == 2: add_clause([x(c0) for c0 in q0])
-        ((('q0', '_vdw_ap_generator(N, ([k1, k2] + ks)[0])'),), ('len([k1, k2] + ks) == 2',), 'add_clause', ('[x(c0) for c0 in q0]',)),
-        # for q0 in _vdw_ap_generator(N, ([k1, k2] + ks)[1]) if len([k1, k2] + ks) == 2: add_clause([-x(c0) for c0 in q0])
-        ((('q0', '_vdw_ap_generator(N, ([k1, k2] + ks)[1])'),), ('len([k1, k2] + ks) == 2',), 'add_clause', ('[-x(c0) for c0 in q0]',)),
-        # for q0 in range(1, N + 1) if not (len([k1, k2] + ks) == 2): cardinality_eq(x(q0, None), 1)
-        ((('q0', 'range(1, N + 1)'),), ('not (len([k1, k2] + ks) == 2)',), 'cardinality_eq', ('x(q0, None)', '1')),
-        # for q0 in range(1, len([k1, k2] + ks) + 1) for q1 in _vdw_ap_generator(N, ([k1, k2] + ks)[q0 - 1]) if not (len([k1, k2] + ks) == 2): add_clause([-x(c0, q0) for c0 in q1])
-        ((('q0', 'range(1, len([k1, k2] + ks) + 1)'), ('q1', '_vdw_ap_generator(N, ([k1, k2] + ks)[q0 - 1])')), ('not (len([k1, k2] + ks) == 2)',), 'add_clause', ('[-x(c0, q0) for c0 in q1]',)),
+    ('cnfgen.families.ramsey', 'VanDerWaerden'): [
+        # for q0 in _vdw_ap_generator(N, ([k1, k2] + ks)[0]) if 2 == len([k1, k2] + ks): add_clause([x(c0) for c0 in q0])
+        ((('q0', '_vdw_ap_generator(N, ([k1, k2] + ks)[0])'),), ('2 == len([k1, k2] + ks)',), 'add_clause', ('[x(c0) for c0 in q0]',)),
+        # for q0 in _vdw_ap_generator(N, ([k1, k2] + ks)[1]) if 2 == len([k1, k2] + ks): add_clause([-x(c0) for c0 in q0])
+        ((('q0', '_vdw_ap_generator(N, ([k1, k2] + ks)[1])'),), ('2 == len([k1, k2] + ks)',), 'add_clause', ('[-x(c0) for c0 in q0]',)),
+        # for q0 in range(1, N + 1) if 2 != len([k1, k2] + ks): cardinality_eq(x(q0, None), 1)
+        ((('q0', 'range(1, N + 1)'),), ('2 != len([k1, k2] + ks)',), 'cardinality_eq', ('x(q0, None)', '1')),
+        # for q0 in range(1, len([k1, k2] + ks) + 1) for q1 in _vdw_ap_generator(N, ([k1, k2] + ks)[q0 - 1]) if 2 != len([k1, k2] + ks): add_clause([-x(c0, q0) for c0 in q1])
+        ((('q0', 'range(1, len([k1, k2] + ks) + 1)'), ('q1', '_vdw_ap_generator(N, ([k1, k2] + ks)[q0 - 1])')), ('2 != len([k1, k2] + ks)',), 'add_clause', ('[-x(c0, q0) for c0 in q1]',)),
     ],
-    ("cnfgen.families.randomformulas", "RandomKCNF"): [
+    ('cnfgen.families.randomformulas', 'RandomKCNF'): [
         # for q0 in sample_clauses(k, n, m, planted_assignments): add_clause(q0)
         ((('q0', 'sample_clauses(k, n, m, planted_assignments)'),), (), 'add_clause', ('q0',)),
     ],
-    ("cnfgen.families.randomkxor", "RandomKXOR"): [
+    ('cnfgen.families.randomkxor', 'RandomKXOR'): [
         # for (q0, q1) in sample_parities(k, n, m, planted_assignments): add_parity(q0, q1)
         ((('(q0, q1)', 'sample_parities(k, n, m, planted_assignments)'),), (), 'add_parity', ('q0', 'q1')),
     ],
-    ("cnfgen.families.subgraph", "SubgraphFormula"): [
+    ('cnfgen.families.subgraph', 'SubgraphFormula'): [
         # : force_complete_mapping(s)
         ((), (), 'force_complete_mapping', ('s',)),
         # : force_functional_mapping(s)
@@ -218,12 +218,12 @@ SPECS = {
         ((), (), 'force_injective_mapping', ('s',)),
         #  if symbreak: force_nondecreasing_mapping(s)
         ((), ('symbreak',), 'force_nondecreasing_mapping', ('s',)),
-        # for ((q0, q1), (q2, q3)) in product(combinations(H.vertices(), 2), combinations(G.vertices(), 2)) if not (G.has_edge(q2, q3) == H.has_edge(q0, q1) or (G.has_edge(q2, q3) and (not induced))): add_claus
-        ((('((q0, q1), (q2, q3))', 'product(combinations(H.vertices(), 2), combinations(G.vertices(), 2))'),), ('not (G.has_edge(q2, q3) == H.has_edge(q0, q1) or (G.has_edge(q2, q3) and (not induced)))',), 'add_clause', ('[-s[q0, q2], -s[q1, q3]]',)),
-        # for ((q0, q1), (q2, q3)) in product(combinations(H.vertices(), 2), combinations(G.vertices(), 2)) if not (G.has_edge(q2, q3) == H.has_edge(q0, q1) or (G.has_edge(q2, q3) and (not induced))) and not sy
-        ((('((q0, q1), (q2, q3))', 'product(combinations(H.vertices(), 2), combinations(G.vertices(), 2))'),), ('not (G.has_edge(q2, q3) == H.has_edge(q0, q1) or (G.has_edge(q2, q3) and (not induced)))', 'not symbreak'), 'add_clause', ('[-s[q0, q3], -s[q1, q2]]',)),
+        # for ((q0, q1), (q2, q3)) in product(combinations(H.vertices(), 2), combinations(G.vertices(), 2)) if (induced or not G.has_edge(q2, q3)) and G.has_edge(q2, q3) != H.has_edge(q0, q1): add_clause([-s[q0, q2], -s[q1, q3]])
+        ((('((q0, q1), (q2, q3))', 'product(combinations(H.vertices(), 2), combinations(G.vertices(), 2))'),), ('(induced or not G.has_edge(q2, q3))', 'G.has_edge(q2, q3) != H.has_edge(q0, q1)'), 'add_clause', ('[-s[q0, q2], -s[q1, q3]]',)),
+        # for ((q0, q1), (q2, q3)) in product(combinations(H.vertices(), 2), combinations(G.vertices(), 2)) if (induced or not G.has_edge(q2, q3)) and G.has_edge(q2, q3) != H.has_edge(q0, q1) and not symbreak: add_clause([-s[q0, q3], -s[q1, q2]])
+        ((('((q0, q1), (q2, q3))', 'product(combinations(H.vertices(), 2), combinations(G.vertices(), 2))'),), ('(induced or not G.has_edge(q2, q3))', 'G.has_edge(q2, q3) != H.has_edge(q0, q1)', 'not symbreak'), 'add_clause', ('[-s[q0, q3], -s[q1, q2]]',)),
     ],
-    ("cnfgen.families.subgraph", "CliqueFormula"): [
+    ('cnfgen.families.subgraph', 'CliqueFormula'): [
         # : force_complete_mapping(s)
         ((), (), 'force_complete_mapping', ('s',)),
         # : force_functional_mapping(s)
@@ -237,7 +237,7 @@ SPECS = {
         # for ((q0, q1), (q2, q3)) in product(combinations(range(1, k + 1), 2), non_edges(G)) if not symbreak: add_clause([-s[q0, q3], -s[q1, q2]])
         ((('((q0, q1), (q2, q3))', 'product(combinations(range(1, k + 1), 2), non_edges(G))'),), ('not symbreak',), 'add_clause', ('[-s[q0, q3], -s[q1, q2]]',)),
     ],
-    ("cnfgen.families.subgraph", "BinaryCliqueFormula"): [
+    ('cnfgen.families.subgraph', 'BinaryCliqueFormula'): [
         # : force_complete_mapping(y)
         ((), (), 'force_complete_mapping', ('y',)),
         # : force_injective_mapping(y)
@@ -249,7 +249,7 @@ SPECS = {
         # for ((q0, q1), (q2, q3)) in product(combinations(range(1, k + 1), 2), ((c0 - 1, c1 - 1) for c0, c1 in non_edges(G))) if not symbreak: add_clause(y.forbid(q0, q3) + y.forbid(q1, q2))
         ((('((q0, q1), (q2, q3))', 'product(combinations(range(1, k + 1), 2), ((c0 - 1, c1 - 1) for c0, c1 in non_edges(G)))'),), ('not symbreak',), 'add_clause', ('y.forbid(q0, q3) + y.forbid(q1, q2)',)),
     ],
-    ("cnfgen.families.subgraph", "RamseyWitnessFormula"): [
+    ('cnfgen.families.subgraph', 'RamseyWitnessFormula'): [
         # : force_complete_mapping(s)
         ((), (), 'force_complete_mapping', ('s',)),
         # : force_functional_mapping(s)
@@ -258,26 +258,26 @@ SPECS = {
         ((), (), 'force_injective_mapping', ('s',)),
         # for ((q0, q1), (q2, q3)) in product(combinations(range(1, k + 1), 2), combinations(G.vertices(), 2)) if not G.has_edge(q2, q3): add_clause([-C, -s(q0, q2), -s(q1, q3)])
         ((('((q0, q1), (q2, q3))', 'product(combinations(range(1, k + 1), 2), combinations(G.vertices(), 2))'),), ('not G.has_edge(q2, q3)',), 'add_clause', ('[-C, -s(q0, q2), -s(q1, q3)]',)),
-        # for ((q0, q1), (q2, q3)) in product(combinations(range(1, k + 1), 2), combinations(G.vertices(), 2)) if not (not G.has_edge(q2, q3)): add_clause([C, -s(q0, q2), -s(q1, q3)])
-        ((('((q0, q1), (q2, q3))', 'product(combinations(range(1, k + 1), 2), combinations(G.vertices(), 2))'),), ('not (not G.has_edge(q2, q3))',), 'add_clause', ('[C, -s(q0, q2), -s(q1, q3)]',)),
+        # for ((q0, q1), (q2, q3)) in product(combinations(range(1, k + 1), 2), combinations(G.vertices(), 2)) if G.has_edge(q2, q3): add_clause([-s(q0, q2), -s(q1, q3), C])
+        ((('((q0, q1), (q2, q3))', 'product(combinations(range(1, k + 1), 2), combinations(G.vertices(), 2))'),), ('G.has_edge(q2, q3)',), 'add_clause', ('[-s(q0, q2), -s(q1, q3), C]',)),
         # for ((q0, q1), (q2, q3)) in product(combinations(range(1, k + 1), 2), combinations(G.vertices(), 2)) if symbreak: add_clause([-s(q0, q3), -s(q1, q2)])
         ((('((q0, q1), (q2, q3))', 'product(combinations(range(1, k + 1), 2), combinations(G.vertices(), 2))'),), ('symbreak',), 'add_clause', ('[-s(q0, q3), -s(q1, q2)]',)),
-        # for ((q0, q1), (q2, q3)) in product(combinations(range(1, k + 1), 2), combinations(G.vertices(), 2)) if not (symbreak) and not G.has_edge(q2, q3): add_clause([-C, -s(q0, q3), -s(q1, q2)])
-        ((('((q0, q1), (q2, q3))', 'product(combinations(range(1, k + 1), 2), combinations(G.vertices(), 2))'),), ('not (symbreak)', 'not G.has_edge(q2, q3)'), 'add_clause', ('[-C, -s(q0, q3), -s(q1, q2)]',)),
-        # for ((q0, q1), (q2, q3)) in product(combinations(range(1, k + 1), 2), combinations(G.vertices(), 2)) if not (symbreak) and not (not G.has_edge(q2, q3)): add_clause([C, -s(q0, q3), -s(q1, q2)])
-        ((('((q0, q1), (q2, q3))', 'product(combinations(range(1, k + 1), 2), combinations(G.vertices(), 2))'),), ('not (not G.has_edge(q2, q3))', 'not (symbreak)'), 'add_clause', ('[C, -s(q0, q3), -s(q1, q2)]',)),
+        # for ((q0, q1), (q2, q3)) in product(combinations(range(1, k + 1), 2), combinations(G.vertices(), 2)) if not G.has_edge(q2, q3) and not symbreak: add_clause([-C, -s(q0, q3), -s(q1, q2)])
+        ((('((q0, q1), (q2, q3))', 'product(combinations(range(1, k + 1), 2), combinations(G.vertices(), 2))'),), ('not G.has_edge(q2, q3)', 'not symbreak'), 'add_clause', ('[-C, -s(q0, q3), -s(q1, q2)]',)),
+        # for ((q0, q1), (q2, q3)) in product(combinations(range(1, k + 1), 2), combinations(G.vertices(), 2)) if G.has_edge(q2, q3) and not symbreak: add_clause([-s(q0, q3), -s(q1, q2), C])
+        ((('((q0, q1), (q2, q3))', 'product(combinations(range(1, k + 1), 2), combinations(G.vertices(), 2))'),), ('G.has_edge(q2, q3)', 'not symbreak'), 'add_clause', ('[-s(q0, q3), -s(q1, q2), C]',)),
     ],
-    ("cnfgen.families.subsetcardinality", "SubsetCardinalityFormula"): [
+    ('cnfgen.families.subsetcardinality', 'SubsetCardinalityFormula'): [
         # for q0 in Left if equalities: cardinality_eq(x(q0, None), (B.right_degree(q0) + 1) // 2)
         ((('q0', 'Left'),), ('equalities',), 'cardinality_eq', ('x(q0, None)', '(B.right_degree(q0) + 1) // 2')),
-        # for q0 in Left if not (equalities): add_loose_majority(x(q0, None))
-        ((('q0', 'Left'),), ('not (equalities)',), 'add_loose_majority', ('x(q0, None)',)),
+        # for q0 in Left if not equalities: add_loose_majority(x(q0, None))
+        ((('q0', 'Left'),), ('not equalities',), 'add_loose_majority', ('x(q0, None)',)),
         # for q0 in Right if equalities: cardinality_eq(x(None, q0), B.left_degree(q0) // 2)
         ((('q0', 'Right'),), ('equalities',), 'cardinality_eq', ('x(None, q0)', 'B.left_degree(q0) // 2')),
-        # for q0 in Right if not (equalities): add_loose_minority(x(None, q0))
-        ((('q0', 'Right'),), ('not (equalities)',), 'add_loose_minority', ('x(None, q0)',)),
+        # for q0 in Right if not equalities: add_loose_minority(x(None, q0))
+        ((('q0', 'Right'),), ('not equalities',), 'add_loose_minority', ('x(None, q0)',)),
     ],
-    ("cnfgen.families.tseitin", "TseitinFormula"): [
+    ('cnfgen.families.tseitin', 'TseitinFormula'): [
         # for (q0, q1) in zip(G.vertices(), charges): add_parity([E(c0, q0) for c0 in G.neighbors(q0)], q1)
         ((('(q0, q1)', 'zip(G.vertices(), charges)'),), (), 'add_parity', ('[E(c0, q0) for c0 in G.neighbors(q0)]', 'q1')),
     ],
